@@ -144,7 +144,7 @@ def cfg_repr(tier, seed):
         k = [rng.randint(-kmax[0], kmax[0]), rng.randint(-kmax[1], kmax[1])]
         if rng.random() < 0.3:
             k[rng.randint(0, 1)] = 0
-        rep = rng.choice(['tilt-plane', 'tilt-plane', 'wavefront-tilt', 'two-tilts', 'segments', 'wtilt-segments-tilt'])
+        rep = rng.choice(['tilt-plane', 'tilt-plane', 'wavefront-tilt', 'two-tilts', 'segments', 'wtilt-segments-tilt', 'wtilt-scalarplane'])
         if rep in ('segments', 'wtilt-segments-tilt') and n[0] * n[1] < 2:
             rep = 'tilt-plane'
         out.append({'n': list(n), 'shape': S, 'prop': P, 'os': os, 'k': k, 'rep': rep, 'scales': rng.choice(['axis', 'axis', 'scalar'])})
@@ -235,6 +235,10 @@ def run_repr(W, cfg):
         w = lt.Wavefront(lam, tilt=[angles[0][0], angles[0][1]]) * p_flat
     elif rep == 'tilt-plane':
         w = lt.Wavefront(lam) * p_flat * lt.Tilt(x=angles[0][0], y=angles[0][1])
+    elif rep == 'wtilt-scalarplane':
+        # the tilted wavefront meets planes without arrays (a default plane, a second Tilt) before the pupil
+        h = W.real('split')
+        w = lt.Wavefront(lam, tilt=[angles[0][0] * h, angles[0][1] * h]) * lt.Plane() * lt.Tilt(x=angles[0][0] * (1 - h), y=angles[0][1] * (1 - h)) * lt.Pupil(focal_length=f) * p_flat
     elif rep == 'two-tilts':
         h = W.real('split')
         w = lt.Wavefront(lam) * lt.Tilt(x=angles[0][0] * h, y=angles[0][1] * (1 - h)) * p_flat * lt.Tilt(x=angles[0][0] * (1 - h), y=angles[0][1] * h)
